@@ -170,6 +170,9 @@ theorem Done.visible_eq {m0 m : Mem} {docs} (s : Start m0) (h : Done m0 docs m) 
 
 /-! ## drop + open of a settled handle -/
 
+theorem enableVecForEmbs_nil (m : Mem) : m.enableVecForEmbs [] = m := by
+  unfold Mem.enableVecForEmbs; simp
+
 /-- the sketch track as it comes back from the file (entries renumbered, property C39) -/
 def reloadedSketch (sk : List Nat) : List Nat := if sk.isEmpty then [] else List.range sk.length
 
@@ -198,7 +201,7 @@ theorem settled_reopen {m : Mem} (hst : Settled m) (hp : OnlyLexRecs m.pending) 
       obtain ⟨ins, hap⟩ := applyRecords_lexOnly m.openLoad.loadTracks m.openLoad.loadTracks.pending
         (by rw [b_pending]; exact hp) true (by rw [b_frames]; exact hno)
       rw [hap]
-      simp only [Bool.false_eq_true, if_false, flushTantivy_clean _ _ b_td]
+      simp only [Bool.false_eq_true, if_false, enableVecForEmbs_nil, flushTantivy_clean _ _ b_td]
       exact ⟨_, rfl, rfl, rfl, rfl, rfl, rfl⟩
   obtain ⟨m2, h2, f1, f2, f3, f4, f5⟩ := hrec
   rw [h2]
